@@ -3,12 +3,15 @@
 Writes seeded/<id>/meta.json and prints a table.  usage: tools/run_seeded.py [id-prefix ...] [--tier quick]"""
 import json, os, re, subprocess, sys
 VERIF = os.path.dirname(os.path.dirname(os.path.abspath(__file__)))
+REPO = os.environ.get("VERIF_REPO", "/repo")
+if REPO != "/repo":
+    os.environ["PYTHONPATH"] = os.path.join(REPO, "src")   # the checks import the library from the scratch copy
 args = [a for a in sys.argv[1:] if not a.startswith("--")]
 tier = "thorough" if "--tier=thorough" in sys.argv else "quick"
 ids = sorted(d for d in os.listdir(os.path.join(VERIF, "seeded")) if os.path.isdir(os.path.join(VERIF, "seeded", d)))
 if args:
     ids = [i for i in ids if any(i.startswith(a) for a in args)]
-assert subprocess.run(["git", "-C", "/repo", "diff", "--quiet"]).returncode == 0, "/repo not clean"
+assert subprocess.run(["git", "-C", REPO, "diff", "--quiet"]).returncode == 0, "/repo not clean"
 rows = []
 for i in ids:
     d = os.path.join(VERIF, "seeded", i)
@@ -16,7 +19,7 @@ for i in ids:
     meta_path = os.path.join(d, "meta.json")
     meta = json.load(open(meta_path)) if os.path.exists(meta_path) else {}
     checks = meta.get("checks_to_run", [pid])
-    r = subprocess.run(["git", "-C", "/repo", "apply", os.path.join(d, "patch.diff")])
+    r = subprocess.run(["git", "-C", REPO, "apply", os.path.join(d, "patch.diff")])
     if r.returncode != 0:
         rows.append((i, "patch does not apply")); continue
     try:
@@ -33,7 +36,7 @@ for i in ids:
                 what = None
             results[c] = {"exit": p.returncode, "violation_line": viol[0] if viol else None, "first_clause": clause, "first_what": what}
     finally:
-        subprocess.run(["git", "-C", "/repo", "checkout", "--", "."])
+        subprocess.run(["git", "-C", REPO, "checkout", "--", "."])
     meta.update({"id": i, "property": pid, "checks_to_run": checks, "results_" + tier: results,
                  "caught": any(v["exit"] == 1 for v in results.values())})
     json.dump(meta, open(meta_path, "w"), indent=1)
